@@ -107,7 +107,7 @@ class Proj:
 
     def fp_container(self, c):
         return ("C", c.name, c.max_volume, c.volume,
-                tuple(sorted((self.fp_sub(s), a) for s, a in c.contents.items())),
+                tuple(sorted(((self.fp_sub(s), a) for s, a in c.contents.items()), key=repr)),
                 getattr(c, "instructions", None), repr(sorted(getattr(c, "experimental_conditions", {}).items())),
                 tuple(sorted(s.name for s in c.get_substances())))      # what the (cached) observer reports is part of the value
 
